@@ -1,9 +1,9 @@
 SPECIFICATION MCSpec
 CONSTANTS
-  Sess = {"a", "b", "c"}
+  Sess = {"a", "b"}
   Bytes = {1, 2}
-  MaxXfer = 1
-  Lifecycle = "real"
+  MaxXfer = 3
+  Lifecycle = "documented"
   DoubleCount = FALSE
   FailedChoices = {"none", "last"}
 INVARIANTS
